@@ -1,5 +1,5 @@
 (* Entry points evaluated by the correspondence harness (props/C07.py). *)
-From PV Require Export C07.Spec.
+From PV Require Export C07.SpecLife.
 
 Definition jq (q : Q) : jv := let r := Qred q in JL [JZ (Qnum r); JZ (Zpos (Qden r))].
 Definition jqs (l : list Q) : jv := JL (map jq l).
@@ -100,6 +100,27 @@ Definition run_script (clk : positive) (nf : nat) (imp : option (Z * kstat)) (ev
        JL (map (fun l => JL (map JZ l)) (script_totals imp [] evs));
        jopt (fun x => JB (k_stat (snd x))) imp;
        jbool (imp_wf nf (first_ids imp evs) imp && script_ok clk nf (first_ids imp evs) imp [] evs) ].
+
+(* a lifetime history: model = the code's run (thread-local storage: calls keyed by the calling
+   thread, lifetime events ignored), spec = thread by thread; for information also what the
+   ident-keyed code before d2712e2 would have answered and whether the history lies in the class
+   where it went wrong *)
+Definition mk_limp (i th : Z) (k : kstat) : limp := Some (i, th, k).
+Definition run_life (clk : positive) (nf : nat) (m : limp) (al0 : alive_t) (levs : list lev) : jv :=
+  let evs_th := map relab (calls levs) in
+  let to_b := option_map (fun x : Z * kstat => (fst x, k_stat (snd x))) in
+  JL [ JL (map (fun e => JL [JB (k_stat (ke_k1 e));
+                             JB (if is_pos (ke_iv e) then k_stat (ke_k2 e) else [])]) evs_th);
+       JL (map (jv_outcome jsres) (run_l clk (sys_start clk (to_b (imp_th m))) (map lev_event levs)));
+       (if script_wf nf (imp_th m) evs_th && script_consistent (imp_th m) [] evs_th
+        then JL (map (jv_outcome jsres) (spec_run clk (imp_th m) [] evs_th)) else jnone);
+       JL (map (fun l => JL (map JZ l)) (script_totals (imp_th m) [] evs_th));
+       jopt (fun x => JB (k_stat (snd x))) (imp_th m);
+       jbool (al_wf al0 && life_wf al0 (map fst al0) levs);
+       jbool (fresh_ok m [] levs);
+       jbool (imp_wf nf (first_ids (imp_th m) evs_th) (imp_th m)
+              && script_ok clk nf (first_ids (imp_th m) evs_th) (imp_th m) [] evs_th);
+       JL (map (jv_outcome jsres) (run_l clk (sys_start clk (to_b (imp_id m))) (map lev_event_ident levs))) ].
 
 (* raw script (arbitrary bytes, optional import-time content): model only *)
 Definition run_script_raw (clk : positive) (imp : option (Z * bytes)) (evs : list event) : jv :=
